@@ -67,6 +67,16 @@ def refPPX {κ : Type} (ks : KeySys κ) (io : FloatIO) (m : GMap κ) (L : Nat) (
           (refPPXOEntries ks io m (cfOfG ks t) t.f L true ih).bind fun s =>
             .text ("Object[{".toList ++ s ++ (if t.f.alt then newLine L else []) ++ "}]".toList)
       typeFinish t.f [] body
+  | .otypeX isDefault ih =>
+    let t := getG ks m (.otypeX isDefault ih)
+    if !isTypeLetter t.f.letter then .reported .unsupported
+    else
+      let body : Res :=
+        if isDefault then .text "Object".toList
+        else
+          (refPPXOEntries ks io m (cfOfG ks t) t.f L true ih).bind fun s =>
+            .text ("Object[{".toList ++ s ++ (if t.f.alt then newLine L else []) ++ "}]".toList)
+      typeFinish t.f [] body
   | .obj name es =>
     if name.isEmpty then
       -- an instance of an anonymous type: the line break of the context, then the init hash as a Hash (which breaks the line again)
@@ -249,6 +259,11 @@ theorem fmtX_pp {κ : Type} (ks : KeySys κ) (io : FloatIO) : ∀ (v : XVal) (m 
     simp only [fmtX, refPPX, fmtX_pp ks io r m L inh nested]
   | .otype name ih, m, L, inh, nested => by
     have h1 := otypeEntries_pp ks io ih m (cfOfG ks (getG ks m (.otype name ih))) (getG ks m (.otype name ih)).f L true
+    rw [fmtX, refPPX]
+    simp only [increase_eq, h1]
+    rfl
+  | .otypeX d ih, m, L, inh, nested => by
+    have h1 := otypeEntries_pp ks io ih m (cfOfG ks (getG ks m (.otypeX d ih))) (getG ks m (.otypeX d ih)).f L true
     rw [fmtX, refPPX]
     simp only [increase_eq, h1]
     rfl
